@@ -25,7 +25,10 @@ import (
 
 var handled int64 // lines the in port's reader goroutine has dealt with (hook)
 
+// set when the stop function of the listener with that id has RETURNED; a callback that starts afterwards is a violation of
+// "after a stop function returns, its listener is never called again"
 type mdrv struct {
+	stoppedL sync.Map
 	drv      *midicatdrv.Driver
 	in       drivers.In
 	out      drivers.Out
@@ -35,6 +38,9 @@ type mdrv struct {
 	got      []pr.Dlv
 	sock     string
 	ack      string
+	slow     bool
+	late     string
+	curL     int
 	sentOK   int64 // sends that returned nil (a line went to the out helper)
 	expectS  int64
 	goodPath string
@@ -147,11 +153,19 @@ func (m *mdrv) Call(fn string, msg int, o pr.Opts) (ret string) {
 			lo = append(lo, midi.UseTimeCode())
 		}
 		stop, err := midi.ListenTo(m.in, func(msg midi.Message, ts int32) {
+			_, late := m.stoppedL.Load(id)
 			k := pr.MsgID(msg)
+			if m.slow {
+				time.Sleep(300 * time.Microsecond) // widen the window in which stop() can race with a callback in flight
+			}
 			m.mu.Lock()
+			if late {
+				m.late = fmt.Sprintf("listener %d called with message %d after its stop function had returned", id, k)
+			}
 			m.got = append(m.got, pr.Dlv{L: id, M: k})
 			m.mu.Unlock()
 		}, lo...)
+		m.curL = id
 		if err == nil {
 			m.stop = stop
 		}
@@ -159,6 +173,7 @@ func (m *mdrv) Call(fn string, msg int, o pr.Opts) (ret string) {
 	case "Stop":
 		if m.stop != nil {
 			m.stop()
+			m.stoppedL.Store(m.curL, true)
 		}
 		ret = "nil"
 	case "Send":
@@ -174,7 +189,38 @@ func (m *mdrv) Call(fn string, msg int, o pr.Opts) (ret string) {
 	return ret
 }
 
+// burstStop: sends without waiting, then stop() at once.
+func (m *mdrv) burstStop(q []int) string {
+	m.slow = true
+	ret := "nil"
+	for _, x := range q {
+		err := m.out.Send(pr.MsgBytes(x))
+		if err == nil {
+			atomic.AddInt64(&m.sentOK, 1)
+		} else {
+			ret = errStr(err)
+		}
+	}
+	if m.stop != nil {
+		m.stop()
+		m.stoppedL.Store(m.curL, true)
+	}
+	m.settle()
+	m.slow = false
+	m.mu.Lock()
+	late := m.late
+	m.late = ""
+	m.mu.Unlock()
+	if late != "" {
+		panic(late)
+	}
+	return ret
+}
+
 func (m *mdrv) Par(msgs [][]int) []string {
+	if len(msgs) == 2 && len(msgs[1]) == 1 && msgs[1][0] == -1 { // marker: BurstStop (see portrec.Run)
+		return []string{m.burstStop(msgs[0])}
+	}
 	res := make([][]string, len(msgs))
 	var wg sync.WaitGroup
 	for i, q := range msgs {
@@ -254,7 +300,15 @@ func genHistory(r *rand.Rand, id, n int) pr.History {
 				lastL++
 			}
 		case k < 14:
-			if lastL > 0 {
+			if lastL > 0 && active && r.Intn(2) == 0 && next <= 110 { // stop racing with deliveries in flight
+				var q []int
+				for j := 0; j < 3+r.Intn(6); j++ {
+					q = append(q, next)
+					next++
+				}
+				h.Steps = append(h.Steps, pr.Step{Fn: "BurstStop", Msgs: [][]int{q}})
+				active = false
+			} else if lastL > 0 {
 				h.Steps = append(h.Steps, pr.Step{Fn: "Stop"})
 				active = false
 			}
